@@ -157,6 +157,7 @@ def run(ctx: core.Ctx):
         "CALIBRATED: the globals of a context-free include/import are the environment globals plus the TARGET template's own template-level globals",
         "CALIBRATED: an import without context additionally sees the importing template's template-level globals (docstring of Template._get_default_module)",
         "CALIBRATED: a template run on the includer's context (include with context, import with context) does not see its own template-level globals (api.rst: only one set of globals per rendering)",
+        "CALIBRATED: an importer running on its includer's context does not pass its own template-level globals on to templates it imports without context",
         "CALIBRATED: a module does not re-export the template's own imports",
         "TemplatesNotFound (lists) is counted as TemplateNotFound (documented subclass)",
         "sync default Environment, DictLoader; fresh Environment per case",
